@@ -30,6 +30,11 @@ def curated():
         unbounded=['S!A:A', 'S!3:3'], ranges=['S!A1:A3'])
     add('bounded_and_unbounded', S({'A1': 1, 'A2': 2, 'A3': 3, 'E1': '=SUM(A1:A3)', 'F1': '=SUM(A:A)', 'G1': '=E1+F1'}),
         unbounded=['S!A:A'], ranges=['S!A1:A3'], inputs=['S!A1', 'S!A3'])
+    add('single_row_unbounded', S({'A1': 3, 'B1': '=SUM(A:A)*2', 'C1': '=B1+1', 'D1': '=A1*10+SUM(A:A)'}), unbounded=['S!A:A'],
+        ranges=['S!A1:C1'])
+    add('cse_out', S({'A1': 1, 'A2': 2, 'D1:D2': {'array': '=A1:A2*2'}, 'E1': 5}), ranges=['S!D1:D2'], tags=['cse'])
+    add('unbounded_formulas', S({'A1': 1, 'A2': '=A1+1', 'A3': '=A2*2', 'B1': '=SUM(A:A)', 'C1': '=SUM(2:2)', 'B2': 7}),
+        unbounded=['S!A:A', 'S!2:2'], ranges=['S!A1:A3'], inputs=['S!A1', 'S!B2'])
     add('empty_text', S({'A1': 1, 'B1': '=IF(A1>5,"big","")', 'C1': '=B1&"x"', 'D1': '=LEN(B1)', 'E1': '=A1+1'}),
         ranges=['S!B1:D1'])
     add('cse2', S({'A1': 1, 'A2': 2, 'D1:D2': {'array': '=A1:A2*2'}, 'B1:B2': {'array': '=D1:D2+1'}, 'F1': '=SUM(B1:B2)'}),
